@@ -39,6 +39,12 @@ def _bump(name, n=1):
     STATS[name] = STATS.get(name, 0) + n
 
 
+def _valid(line, platform, acl_type):
+    version = EXPECT.get("version") or ""
+    return reader.validate_ace_line(line, platform, acl_type, lambda p: grammar.port_vocab(p, platform, version),
+                                    grammar.proto_out_vocab(platform))
+
+
 def _member_cubes(addr):
     out = []
     for item in addr.items:
@@ -79,6 +85,9 @@ def _judge_acl(acl, want, dev, problems):
         if reader.meaning_full(gsem) != reader.meaning_full(wsem):
             problems.append(f"ACL {name}: entry {text!r} became {item.line!r} (out of order or changed)")
             continue
+        bad = _valid(item.line, dev["platform"], want["type"])
+        if bad:
+            problems.append(f"ACL {name}: entry renders {item.line!r}, not valid for this platform/version: {bad}")
         for side in ("src", "dst"):
             sem = wsem[side]
             addr = getattr(item, side + "addr")
@@ -149,6 +158,12 @@ def _post_aces(args, kwargs, result, exc, token):
         if not same:
             FOUND.append({"what": "aces() returned a different entry", "detail": {"got": item.line, "want": text}})
             return
+        if type(item).__name__ == "Ace":
+            bad = _valid(item.line, dev["platform"], item.type)
+            if bad:
+                FOUND.append({"what": "aces() renders an entry that is not valid for this platform/version",
+                              "detail": {"line": item.line, "problems": bad, "version": EXPECT.get("version")}})
+                return
 
 
 def _post_addrgroups(args, kwargs, result, exc, token):
@@ -212,7 +227,13 @@ def render(dev: dict, style: dict, rng) -> str:
         if rng.random() < 0.4:
             body.append("no shutdown")
         rng.shuffle(body)
-        sections.append(("intf", name, lines + [ind + b for b in body]))
+        if len(body) >= 2 and style.get("split_intf") and rng.random() < 0.5:
+            # the same interface in two sections (merged configurations): both halves count
+            cut = rng.randint(1, len(body) - 1)
+            sections.append(("intf", name, lines + [ind + b for b in body[:cut]]))
+            sections.append(("intf", name, lines + [ind + b for b in body[cut:]]))
+        else:
+            sections.append(("intf", name, lines + [ind + b for b in body]))
     for n in range(style["noise"]):
         kind = rng.choice(["bgp", "vlan", "line", "flat", "snmp"])
         if kind == "bgp":
@@ -272,9 +293,14 @@ def gen_device(rng) -> dict:
         groups[name] = cubes
         group_texts[name] = texts
     acls = []
+    version = rng.choice(["", "", "15.2(02)SY", "16.09.06"])
     word = "object-group" if platform == "ios" else "addrgroup"
     for n in range(rng.randint(0, 4)):
         name = rng.choice(["A", "EDGE", "acl", "V4", "x-"]) + str(n + 1)
+        if acls and rng.random() < 0.3:  # a name that has another ACL's name as a proper prefix
+            name = rng.choice(acls)["name"] + rng.choice(["0", "_V2", "-b"])
+        if name in [a["name"] for a in acls]:
+            name += "z"
         acl_type = "standard" if platform == "ios" and rng.random() < 0.2 else "extended"
         entries = []
         seq = 0
@@ -297,8 +323,12 @@ def gen_device(rng) -> dict:
                     pair = (f"{word} {gname}", f"{word} {rng.choice(['G1', 'G2'])}")
                 entries.append(f"{pre}{rng.choice(['permit', 'deny'])} {rng.choice(['ip', 'tcp', 'udp'])} {pair[0]} {pair[1]}")
             else:
-                entries.append(grammar.gen_ace(rng, platform, "", allow_group=False, foreign=False, seq=seq, ws=False,
-                                               max_k=2, allow_neq_multi=True)["text"])
+                if rng.random() < 0.15:  # ports whose name depends on the software version
+                    pr, num = rng.choice([("tcp", 135), ("tcp", 15001), ("tcp", 514), ("udp", 521), ("tcp", 3949)])
+                    entries.append(f"{pre}permit {pr} any any eq {num}")
+                else:
+                    entries.append(grammar.gen_ace(rng, platform, version, allow_group=False, foreign=False, seq=seq, ws=False,
+                                                   max_k=2, allow_neq_multi=True)["text"])
         acls.append({"name": name, "type": acl_type, "entries": entries})
     intfs = {}
     acl_names = [a["name"] for a in acls] + ["UNDEFINED"]
@@ -318,13 +348,13 @@ def gen_device(rng) -> dict:
             binds.append((a, "in"))
             binds.append((a, "out"))
         intfs[iname] = binds
-    return {"platform": platform, "acls": acls, "groups": groups, "group_texts": group_texts, "intfs": intfs}
+    return {"platform": platform, "acls": acls, "groups": groups, "group_texts": group_texts, "intfs": intfs, "version": version}
 
 
 def gen_style(rng) -> dict:
     ind = rng.choice([" ", "  ", "   ", "    ", "        ", "\t"])
     return {"indent": ind, "noise": rng.randint(0, 4), "shuffle": rng.random() < 0.7, "bang": rng.random() < 0.5,
-            "blank": rng.random() < 0.3}
+            "blank": rng.random() < 0.3, "split_intf": rng.random() < 0.3}
 
 
 def _result_key(acls):
@@ -347,15 +377,18 @@ def execute(ctx, case: dict) -> None:
         rng = random.Random(case["rseed"] + n)
         text = render(dev, style, rng)
         EXPECT["dev"] = dev
+        EXPECT["version"] = case.get("version", "")
         try:
             kw = {"platform": platform}
+            if case.get("version"):
+                kw["version"] = case["version"]
             if case.get("names") is not None:
                 kw["names"] = list(case["names"])
             if case.get("group_by"):
                 kw["group_by"] = case["group_by"]
             res = cisco_acl.acls(text, **kw)
             results.append(_result_key(res))
-            cisco_acl.aces(text, platform=platform, group_by=case.get("group_by", ""))
+            cisco_acl.aces(text, platform=platform, group_by=case.get("group_by", ""), **({"version": case["version"]} if case.get("version") else {}))
             cisco_acl.addrgroups(text, platform=platform)
         except Exception:  # pylint: disable=broad-except
             results.append(None)  # judged by the taps
@@ -382,6 +415,7 @@ def run(ctx) -> None:
         if dev["acls"] and rng.random() < 0.3:
             names = rng.sample([a["name"] for a in dev["acls"]] + ["nope"], rng.randint(0, min(2, len(dev["acls"]))))
         case = {"dev": dev, "styles": [gen_style(rng), gen_style(rng)], "rseed": rng.randrange(1 << 30), "names": names,
+                "version": dev.get("version", ""),
                 "group_by": rng.choice(["", "", "= ", "#"])}
         before = sum(STATS.values())
         execute(ctx, case)
